@@ -29,7 +29,7 @@ ASSUMPTIONS = [
     'samples are finite floats with magnitude <= 1e9',
 ]
 BUDGET = {
-    'quick': {'examples': 400},
+    'quick': {'examples': 1500},
     'thorough': {'examples': 3000, 'shards': 8},
 }
 
